@@ -18,27 +18,27 @@ theorem forward_only_if (s : State) (h : Reachable s) :
 
 /-- Every accepted submission passed the admission check. -/
 theorem accepted_admitted (s : State) (h : Reachable s) :
-    ∀ x ∈ s.accepted, ∃ cf, getSCall s x.2.2.1 = some cf ∧ admit x.2.2.2.2.1 x.2.2.2.2.2 cf.src = true := by
+    ∀ x ∈ s.accepted, ∃ cf, getSCall s x.2.2.1 = some cf ∧ admitOk x.2.2.2.2.1 x.2.2.2.2.2 cf.src = true := by
   exact (SigSess.reachable_good h).inv.acc
 
 /-- A submission that does not verify, or is signed by anyone but the stream's authenticated
 identity, is rejected: the stream's reader stops with an error and nothing is stored. -/
 theorem unauthentic_rejected (s : State) (c : SCall) (epoch : Nat) (m : Msg) (v : Bool) (g : Nat)
-    (hc : getSCall s c.id = some c) (hadm : admit v g c.src = false) :
+    (hc : getSCall s c.id = some c) (hadm : admitOk v g c.src = false) :
     sSend s c.id epoch m v g = setSCall s { c with readerDone := true } := by
   simp [sSend, hc, hadm]
 
 /-- A message for an epoch newer than the server's is rejected (the stream fails), not stored. -/
 theorem future_epoch_rejected (s : State) (c : SCall) (t : Sess) (epoch : Nat) (m : Msg) (v : Bool) (g : Nat)
     (hc : getSCall s c.id = some c) (ht : getSess s c.sess = some t)
-    (hadm : admit v g c.src = true) (hfut : t.seqno < epoch) :
+    (hadm : admitOk v g c.src = true) (hfut : t.seqno < epoch) :
     sSend s c.id epoch m v g = setSCall s { c with readerDone := true } := by
   simp [sSend, hc, hadm, ht, hfut]
 
 /-- A message for an older epoch is not forwarded (no effect at all). -/
 theorem stale_not_forwarded (s : State) (c : SCall) (t : Sess) (epoch : Nat) (m : Msg) (v : Bool) (g : Nat)
     (hc : getSCall s c.id = some c) (ht : getSess s c.sess = some t)
-    (hadm : admit v g c.src = true) (hstale : epoch < t.seqno) :
+    (hadm : admitOk v g c.src = true) (hstale : epoch < t.seqno) :
     sSend s c.id epoch m v g = s := by
   have h1 : ¬ t.seqno < epoch := by omega
   have h2 : t.seqno ≠ epoch := by omega
